@@ -59,6 +59,9 @@ func checkC07(c *Ctx, r *Report) {
 		for _, pi := range packetParsers(c, "packet", false) {
 			c02RoundTrip(c, tmp, pi, crc, false)
 		}
+		for _, name := range []string{"ParseTCPResponse", "ParseRTUResponse"} {
+			c02Dispatcher(c, tmp, c.fnMust("packet", name), name == "ParseTCPResponse", false)
+		}
 		r.instance("R7.6", copyItems(tmp, r, "R2.1", "R7.6")+copyItems(tmp, r, "R2.6", "R7.6"))
 		r.floor("R7.6", 20)
 	}
